@@ -1,14 +1,14 @@
-SPECIFICATION FairSpec
+SPECIFICATION Spec
 CONSTANT Machines <- WalkMachines
 CONSTANT WalkDomains <- QWalk
 CONSTANT WalkerDomains <- QWalker
 CONSTANT LemmaDomains <- None
 CONSTANT Q = 4
 INVARIANT FwLoopInv
+INVARIANT FwProgressInv
 INVARIANT FwFinalInv
 INVARIANT FwCountsBehavioursInv
 INVARIANT WalkerCountedInv
 INVARIANT WalkerCountInv
 INVARIANT WalkerEnabledInv
-PROPERTY Terminates
 CHECK_DEADLOCK FALSE
